@@ -263,8 +263,9 @@ Definition slider_fields_spec (sound : Z) (r : list str) : option SliderPre :=
   | _, _ => None
   end.
 
-(* [vertices] is scratch: the specification leaves it to the implementation
-   (second component of the argument) *)
+(* [vertices] and [curve_points] are scratch: [vertices] is left to the
+   implementation (argument [scratch]); [curve_points] is cleared before a path
+   is read, so what it held never reaches an object *)
 Definition line_spec_with (st : HOState) (line : str) (scratch : list PCP) : HOState * res :=
   match common_spec line with
   | None => (st, Rejected)
@@ -284,12 +285,13 @@ Definition line_spec_with (st : HOState) (line : str) (scratch : list PCP) : HOS
               if ok then
                 accept (mkHO (ho_last st) [] scratch (ho_objects st) (ho_mode st)) f
                        (KSlider (mkSlider (f_pos f) (starts_combo st t) (combo_offset_spec t)
-                                          (ho_mode st) (ho_curve st ++ cps) (spre_len pre)
+                                          (ho_mode st) cps (spre_len pre)
                                           (spre_nodes pre) (spre_repeat pre) D.one))
                        (spre_bank pre)
               else
-                (* D3: the points of the well-formed leading segments stay in curve_points *)
-                (mkHO (ho_last st) (ho_curve st ++ cps) scratch (ho_objects st) (ho_mode st), Rejected)
+                (* the points of the well-formed leading segments stay in the scratch buffer
+                   curve_points; the next slider line clears it before use *)
+                (mkHO (ho_last st) cps scratch (ho_objects st) (ho_mode st), Rejected)
           | None => (st, Rejected)
           end
       | Some 2 =>
